@@ -21,6 +21,11 @@ def run(tier, seed, t0):
     cases = cc.simple(PID, "stack", "c23", seed, tier, 6000 if tier == "thorough" else 480, case_timeout=20, crash_policy=pol)
     def rb(c):
         return {"cmd": f"/verif/wl-core/target/release/stack c23 --seed {seed} --from {c.idx} --to {c.idx+1}"}
+    from checks import common_hook as ch
+    try:
+        cases += ch.cases(PID, seed, tier, 6 if tier != "thorough" else 40)
+    except vlib.BuildError as e:
+        c = vlib.Case(7_000_000); c.engine = "LD_PRELOAD interposition"; c.verdict = "inconclusive"; c.sig = "harness/hook-dylib-build-failed"; c.detail = str(e); cases.append(c)
     return vlib.finish(PID, tier, seed, "exploration", cases, rule=RULE, t0=t0, replay_builder=rb,
                        assumptions=["the runtime counts a segment's guard page as room (its default red zone adds one page for it); the oracle allows for that page",
                                     "the workload itself stays within the red zone between two growth points (frames <= red_zone/4)", "x86-64 Linux"])
